@@ -4,7 +4,7 @@ from dag import strip_casts, show
 from mir import Body, op_local
 
 LEVEL = "other"
-EXPLANATION = ("Necessary shape conditions of slot exclusivity, decided on all paths of the allocator: (R13.1) alloc_ref hands out exactly the id "
+EXPLANATION = ("(R13.4) the free-list rings satisfy the ring shape conditions and wrap-safety rules shared with C02 / C15 (exact fullness/emptiness guards on wrapping distances, ordered commit, index agreement). Necessary shape conditions of slot exclusivity, decided on all paths of the allocator: (R13.1) alloc_ref hands out exactly the id "
                "it dequeued from the free list (one dequeue per returned slot, slot = pool[id]); dealloc_id destroys the payload (when it "
                "needs drop) strictly before re-enqueueing exactly the id it was given, once; `new` fills the free list with exactly "
                "0..POOL_SIZE; only new/alloc_ref/dealloc_id (and Debug) touch the free list; (R13.2) id<->ref conversions are inverse maps over "
@@ -121,3 +121,15 @@ def check(ctx):
                 ok = owner in ALLOWED or owner.endswith(ALLOWED_SUFFIX)
                 ctx.ob("R13.3", f"{owner}|calls|{t[1]['fname']}", ok, f"{f['file']}:{t[1]['line']}", f"`{owner.split('::')[-1]}` frees a pool slot; only owners of a slot may (handle drops, zero-copy release/unleak, reservation cancel)")
     ctx.floor("R13.1", 9); ctx.floor("R13.2", 5); ctx.floor("R13.3", 8)
+    # ---------------------------------------------------------------- R13.4 the free list itself: ring shape + wrap safety (shared with C02 / C15)
+    # "allocation fails only if all were outstanding", "a deallocated slot becomes allocatable again" and the property's explicit
+    # "sequence-counter wrap of the free list" rest on the free-list ring's guards being exact and wrap-safe
+    import importlib
+    C02 = importlib.import_module("props.C02"); C15 = importlib.import_module("props.C15")
+    class Ring(util.PrefixedCtx):
+        def ob(self, rule, key, ok, site="", detail="", nontrivial=True, undecided=False):
+            if rule in ("R02.1", "R02.2", "R02.3"): return super().ob(rule, key, ok, site, detail, nontrivial, undecided)
+            if rule in ("R15.1", "R15.2", "R15.3") and ("atomic_move" in key or "full_sync_move" in key or "ogre_array_pool_allocator" in key): return super().ob(rule, key, ok, site, detail, nontrivial, undecided)
+            return ok
+    C02.check(Ring(ctx, "R13.4")); C15.check(Ring(ctx, "R13.4"))
+    ctx.floor("R13.4", 30)
